@@ -328,9 +328,9 @@ for _p, _ts in SRC_THEOREMS.items():
 
 # thorough tier only: the shape / idempotence theorems restated about the translated RedactMongoLog (Props/Src/EndToEndShape).  The quick tier
 # of C03 and C19 does not depend on the refinement proofs of the dispatch functions, so that a rewrite of those leaves it alone.
-PROPS["C03"]["thorough_theorems"] = ["Anonymongo.Src.C03_src", "Anonymongo.Src.RedactMongoLog_returns", "Anonymongo.Src.witness_callees"]
+PROPS["C03"]["thorough_theorems"] = ["Anonymongo.Src.C03_src", "Anonymongo.Src.C03_src_bytes", "Anonymongo.Src.parseObj_depth", "Anonymongo.Src.RedactMongoLog_returns", "Anonymongo.Src.witness_callees"]
 PROPS["C03"]["thorough_modules"] = ["Anonymongo.Props.Src.EndToEndShape"]
-PROPS["C19"]["thorough_theorems"] = ["Anonymongo.Src.C19_src", "Anonymongo.Src.RedactMongoLog_returns", "Anonymongo.Src.witness_callees"]
+PROPS["C19"]["thorough_theorems"] = ["Anonymongo.Src.C19_src", "Anonymongo.Src.C19_src_bytes", "Anonymongo.Src.parseObj_depth", "Anonymongo.Src.RedactMongoLog_returns", "Anonymongo.Src.witness_callees"]
 PROPS["C19"]["thorough_modules"] = ["Anonymongo.Props.Src.EndToEndShape"]
 
 # the two fixed regular expressions are the ones the model's recognisers were written for (e-mail class: C01, C05; plan summary: C15, C13)
